@@ -15,6 +15,13 @@
 (*   SetOptions(d) Force.set_options(delta)  merges d into the options     *)
 (*   Compute       Force.compute()                                         *)
 (*   Foreign(s)    another engine (other options) lays the labels of s out *)
+(*   Remeasure(s)  the label OBJECTS of s get other widths / data positions *)
+(*                 assigned (Timeline assigns node.width after creating the *)
+(*                 nodes; a caller that rescales its axis assigns idealPos):*)
+(*                 the labels of s are now its other version, and anything  *)
+(*                 an earlier layout derived from the old values is stale   *)
+(*                 (aspect "meas": the code reads width and idealPos afresh *)
+(*                 in every compute)                                        *)
 (***************************************************************************)
 EXTENDS Integers, Sequences, FiniteSets, TLC
 
@@ -24,7 +31,7 @@ CONSTANTS Sets,        \* label-set names, e.g. {"A", "B"}
           Mech,        \* mechanisms present: subset of Aspects
           MaxLen
 
-Aspects == {"stubs", "pos", "order", "ovl"}
+Aspects == {"stubs", "pos", "order", "ovl", "meas"}
 \* BaseOf / DeltaOf are fixed by the instance (the harness uses the same table, see EngineInst)
 BaseOf(s) == IF s = "PA" THEN "A" ELSE IF s = "PB" THEN "B" ELSE s
 \* option keys: mx (maxPos; 0 = None), mn (minPos; -1 = None), ns (nodeSpacing), alg, sw (stubWidth), dn (density in percent)
@@ -41,33 +48,40 @@ DeltaOf(d) == CASE d = "d1" -> [mx |-> 8]
 Merge(o, dl) == [k \in DOMAIN o |-> IF k \in DOMAIN dl THEN dl[k] ELSE o[k]]
 
 NoResult == [kind |-> "none"]
-VARIABLES loaded, opts, dirty, result, h
-vars == <<loaded, opts, dirty, result, h>>
+VARIABLES loaded, opts, dirty, ver, result, h
+vars == <<loaded, opts, dirty, ver, result, h>>
 
 Init == /\ loaded = "none" /\ opts = Opt0 /\ dirty = [s \in Sets |-> {}]
+        /\ ver = [s \in Sets |-> 1]
         /\ result = NoResult /\ h = <<>>
 
-Expected == [kind |-> "layout", base |-> BaseOf(loaded), opts |-> opts]
+Expected == [kind |-> "layout", base |-> BaseOf(loaded), ver |-> ver[BaseOf(loaded)], opts |-> opts]
 
 SetNodes(s) == /\ loaded' = s /\ result' = NoResult
-               /\ h' = Append(h, "N:" \o s) /\ UNCHANGED <<opts, dirty>>
+               /\ h' = Append(h, "N:" \o s) /\ UNCHANGED <<opts, dirty, ver>>
 SetOptions(d) == /\ opts' = Merge(opts, DeltaOf(d))
                  /\ result' = NoResult       \* the last layout no longer belongs to the current options
-                 /\ h' = Append(h, "O:" \o d) /\ UNCHANGED <<loaded, dirty>>
+                 /\ h' = Append(h, "O:" \o d) /\ UNCHANGED <<loaded, dirty, ver>>
 Compute == /\ loaded # "none"
            /\ LET b == BaseOf(loaded)
                   leaked == (dirty[b] \cup (IF loaded \in Perms THEN {"order"} ELSE {})) \ Mech
               IN /\ result' = IF leaked = {} THEN Expected ELSE [kind |-> "corrupt", leaked |-> leaked]
                  /\ dirty' = [dirty EXCEPT ![b] = {"stubs", "pos", "ovl"}]
-           /\ h' = Append(h, "C") /\ UNCHANGED <<loaded, opts>>
-Foreign(s) == /\ dirty' = [dirty EXCEPT ![s] = {"stubs", "pos", "ovl"}]
-              /\ h' = Append(h, "F:" \o s) /\ UNCHANGED <<loaded, opts, result>>
+           /\ h' = Append(h, "C") /\ UNCHANGED <<loaded, opts, ver>>
+Foreign(s) == /\ dirty' = [dirty EXCEPT ![s] = (@ \ {"meas"}) \cup {"stubs", "pos", "ovl"}]
+              /\ h' = Append(h, "F:" \o s) /\ UNCHANGED <<loaded, opts, ver, result>>
+Remeasure(s) == /\ ver' = [ver EXCEPT ![s] = 3 - @]
+                \* whatever was derived from the old measurements by an earlier layout of these objects is now stale
+                /\ dirty' = [dirty EXCEPT ![s] = IF @ = {} THEN {} ELSE @ \cup {"meas"}]
+                /\ result' = IF BaseOf(loaded) = s THEN NoResult ELSE result
+                /\ h' = Append(h, "M:" \o s) /\ UNCHANGED <<loaded, opts>>
 
 Next == /\ Len(h) < MaxLen
         /\ \/ \E s \in Sets \cup Perms : SetNodes(s)
            \/ \E d \in Deltas : SetOptions(d)
            \/ Compute
            \/ \E s \in Sets : Foreign(s)
+           \/ \E s \in Sets : Remeasure(s)
 Spec == Init /\ [][Next]_vars
 
 \* C06: after every Compute the result is the fresh layout of the base labels under the accumulated options
